@@ -9,6 +9,7 @@ CONSTANTS
   EngSensors <- AllS
   Policy <- PolMunkres
   NSteps = 3
+  SpanSteps = 3
   Dt = 1
   OutDt = 2
   Events <- NoEvents
